@@ -73,7 +73,16 @@ def main():
         return f
 
     ident = lambda e, m, a: deref(e, a[0]) if isinstance(a[0], Ref) and False else a[0]
+    def m_registry_get(e, m, a):
+        name = a[1]
+        text = name[1].decode() if isinstance(name[1], bytes) else name[1]
+        if m.group(1) == "has":
+            return text in ("a", "size")
+        return ("Some", ("fnref", text)) if text in ("a", "size") else ("None",)
+
     extern = [
+        (r"^(?:magic::)?FunctionRegistry::(get|has)$", m_registry_get),
+        (r"^context::Context::<'_>::(?:get_function|has_function)$", lambda e, m, a: e.call_fn(find("::" + m.group(0).split("::")[-1]), a)),
         (r"^<S as (?:std::convert::)?Into<std::string::String>>::into$", lambda e, m, a: deref(e, a[0])),
         (r"^<V as (?:std::convert::)?Into<Value>>::into$", ident),
         (r"^<std::string::String as (?:std::convert::)?Into<Arc<std::string::String>>>::into$", ident),
@@ -98,7 +107,7 @@ def main():
                 for lv, defined in enumerate(combo):
                     vars_ = ("map", {n: ("abs_val", "%s@%d" % (n, lv)) for n in defined})
                     if lv == 0:
-                        node = ("enum", "Context::Root", [Opaque("functions"), vars_])
+                        node = ("enum", "Context::Root", [("registry",), vars_])
                     else:
                         node = ("enum", "Context::Child", [parent_ref, vars_])
                     h = {0: node}
@@ -124,6 +133,15 @@ def main():
                             probs.append("lookup of %s gives %r, expected %r" % (name, got, want))
                     elif not (got[1] == "Result::Err" and got[2][0][1] == "ExecutionError::UndeclaredReference" and got[2][0][2][0] == ("string", name)):
                         probs.append("lookup of undefined %s is not UndeclaredReference(%s): %r" % (name, name, got))
+                # functions live in the root registry only: a variable of the same name, in any scope, neither
+                # hides a function nor makes one appear (the registry here knows `a` and `size`)
+                for fname in ("a", "b", "size"):
+                    gotf = eng.call_fn(find("::get_function"), [inner, ("str", fname.encode())])
+                    hasf = eng.call_fn(find("::has_function"), [inner, ("str", fname.encode())])
+                    stats["paths"] += 2
+                    wantf = fname in ("a", "size")
+                    if (gotf[0] == "Some") != wantf or bool(hasf) != wantf:
+                        probs.append("function lookup of %s is %r/%r although the registry %s it" % (fname, gotf[0], hasf, "has" if wantf else "lacks"))
                 # define / redefine in the innermost scope
                 for name in names:
                     before = [copy.deepcopy(h[0][2][1][1]) for h in holders[:-1]]
